@@ -182,6 +182,7 @@ type v2MatchOpts struct {
 	api    string // "Match" (default) or "MatchFrom"
 	reader func(data []byte) (r interface{ Read([]byte) (int, error) }, want string)
 	quiet  bool // do not emit, only return the projection
+	retain bool // record the retain loop through the hook (sorted candidates, decisions) for TraceV2.RetainRet
 }
 
 type v2Res struct {
@@ -211,6 +212,29 @@ func (t *v2T) match(c *v2C, data []byte, o v2MatchOpts) *v2Res {
 				m[kv[i].(string)] = kv[i+1]
 			}
 			scoreEvents = append(scoreEvents, t.scoreEvent(c, in, wdoc, m))
+		}
+		defer func() { VerifSink = nil }()
+	}
+	var retainEv map[string]interface{}
+	if o.retain && !o.scored {
+		VerifSink = func(ev string, kv ...interface{}) {
+			if ev != "retain" {
+				return
+			}
+			var cands Matches
+			var bits []bool
+			for i := 0; i+1 < len(kv); i += 2 {
+				switch kv[i] {
+				case "cands":
+					cands = kv[i+1].(Matches)
+				case "retain":
+					bits = kv[i+1].([]bool)
+				}
+			}
+			if len(cands) == 0 || len(cands) > 80 {
+				return
+			}
+			retainEv = v2RetainEvent(in, cands, bits)
 		}
 		defer func() { VerifSink = nil }()
 	}
@@ -298,6 +322,9 @@ func (t *v2T) match(c *v2C, data []byte, o v2MatchOpts) *v2Res {
 			t.emit(se)
 		}
 	}
+	if retainEv != nil {
+		t.emit(retainEv)
+	}
 	t.emit(ev)
 	return res
 }
@@ -365,6 +392,31 @@ func (t *v2T) emitMatch(c *v2C, data []byte, r Results, memo, api string) {
 		"thr": rk[c.thr], "one": rk[1.0], "total": r.TotalInputLines, "ms": ms,
 		"unchanged": true, "docs": []int{len(c.c.docs), len(c.c.docs)}, "dict": []int{len(c.c.dict.words), len(c.c.dict.words)},
 		"memo": memo, "scored": false, "lines": []int{}, "hash": v2Hash(data)})
+}
+
+// v2RetainEvent projects the hook observation of the retain loop: ranks instead of floats and strings.
+func v2RetainEvent(in string, cands Matches, bits []bool) map[string]interface{} {
+	var confs, weights []float64
+	var keys []string
+	for _, c := range cands {
+		confs = append(confs, c.Confidence)
+		weights = append(weights, float64(c.EndTokenIndex-c.StartTokenIndex)*c.Confidence) // the loop's own expression
+		keys = append(keys, c.MatchType+"\x00"+c.Name+"\x00"+c.Variant)
+	}
+	cr, wr := v2Ranks(confs), v2Ranks(weights)
+	sk := append([]string(nil), keys...)
+	sort.Strings(sk)
+	kr := map[string]int{}
+	for i, k := range sk {
+		if _, ok := kr[k]; !ok {
+			kr[k] = i + 1
+		}
+	}
+	cs := []map[string]interface{}{}
+	for i, c := range cands {
+		cs = append(cs, map[string]interface{}{"cr": cr[c.Confidence], "wr": wr[weights[i]], "kr": kr[keys[i]], "sl": c.StartLine, "el": c.EndLine, "st": c.StartTokenIndex, "et": c.EndTokenIndex})
+	}
+	return map[string]interface{}{"ev": "retain", "in": in, "cands": cs, "bits": append([]bool(nil), bits...)}
 }
 
 func (t *v2T) pair(a, b *v2Res, kind string, dtok int, lmap []int, nocopy bool, notices []int, extra map[string]interface{}) {
